@@ -83,8 +83,44 @@ def make_case(rng, kind):
     return rows, D, F, probe, ops
 
 
-def spec_check_factory(D, probe):
+import casbin
+
+
+def domain_like(a, b):
+    """a ROLE-NAME matching function that relates no two distinct subject/role names of the universe but happens
+    to relate the domain names d1/d2 (they look like patterns of each other): registering it must not couple the
+    tenants"""
+    return a == b or (len(a) == 2 and len(b) == 2 and a[0] == b[0] == "d" and a[1].isdigit() and b[1].isdigit())
+
+
+class EnforcerWithRoleMatcher(casbin.Enforcer):
+    def __init__(self, *a, **k):
+        super().__init__(*a, **k)
+        self.add_named_matching_func("g", domain_like)
+
+
+def pdom_model_text(kind):
+    """same model with the rule's domain handed to g(): g(r.sub, p.sub, p.dom) && r.dom == p.dom && ... (equivalent,
+    since the conjunct r.dom == p.dom stands next to it)"""
+    return kind.model_text().replace("g(r.sub, p.sub, r.dom)", "g(r.sub, p.sub, p.dom)")
+
+
+VARIANTS = {
+    "plain": {},
+    "pdom": dict(model_text=None),                       # filled per kind
+    "rolematcher": dict(enforcer_cls=EnforcerWithRoleMatcher),
+}
+
+
+def impl_kwargs_for(kind, variant):
+    if variant == "pdom":
+        return dict(model_text=pdom_model_text(kind))
+    return dict(VARIANTS[variant])
+
+
+def spec_check_factory(D, probe, impl_kwargs=None):
     plen = len(probe)
+    impl_kwargs = impl_kwargs or {}
 
     def spec_check(kind, rows, lf, ops, obs, impl):
         out = []
@@ -96,7 +132,7 @@ def spec_check_factory(D, probe):
                 res = [o[0] for o in obs[i:i + plen]]
                 if ref is None:
                     # reference: the same probe on an enforcer that never sees the foreign calls
-                    refimpl, refobs = mgmt.run_impl(kind, rows, lf, probe)
+                    refimpl, refobs = mgmt.run_impl(kind, rows, lf, probe, **impl_kwargs)
                     ref = [o[0] for o in refobs]
                 for k in range(plen):
                     if res[k] != ref[k]:
@@ -134,6 +170,19 @@ def run(chk, n):
         mgmt.run_cases(chk, kind, cases, None, label=f"foreign-{kn}",
                        key_fn=lambda k, r, o: (k.name, repr(r), repr([x for x in o if x[0] < 50])))
         chk.extra.setdefault("strata", {})[f"foreign_{kn}"] = n
+    # variants of the domain model: the rule's domain handed to g(); a role-name matching function registered
+    kind = mgmt.KINDS["dom"]
+    for variant in ("pdom", "rolematcher"):
+        kw = impl_kwargs_for(kind, variant)
+        cases = []
+        for _ in range(max(40, n // 3)):
+            rows, D, F, probe, ops = make_case(rng, kind)
+            sc = spec_check_factory(D, probe, kw)
+            sc.case_extra = dict(variant=variant)
+            cases.append((rows, True, ops, sc))
+        mgmt.run_cases(chk, kind, cases, None, label=f"foreign-dom-{variant}", impl_kwargs=kw,
+                       key_fn=lambda k, r, o, v=variant: (k.name, v, repr(r), repr([x for x in o if x[0] < 50])))
+        chk.extra["strata"][f"foreign_dom_{variant}"] = len(cases)
 
 
 def replay(chk):
@@ -156,8 +205,9 @@ def replay(chk):
     json.dump(rec, f)
     f.close()
     chk.replay_file = f.name
+    kw = impl_kwargs_for(kind, c.get("variant", "plain"))
     try:
-        return mgmt.replay_case(chk, spec_check_factory(D, probe))
+        return mgmt.replay_case(chk, spec_check_factory(D, probe, kw), impl_kwargs=kw)
     finally:
         os.unlink(f.name)
 
@@ -170,6 +220,8 @@ def main():
                 "for p and g, add/delete_roles_for_user_in_domain, queries in the other domain); reference = the same "
                 "probe on an enforcer that never saw the foreign calls; non-trivial = at least one foreign mutating "
                 "call; distinct by (rows, foreign calls)")
+    chk.rule += ("; the same on two variants of the domain model: the rule's domain handed to g() (g(r.sub,p.sub,p.dom)), and "
+                 "a role-name matching function registered that relates no two role names but the domain names")
     chk.assumptions = ["no domain-matching function registered (domain patterns are C14)",
                        "calls that are not domain-scoped by construction (delete_user, delete_role, clear_policy) are not 'calls "
                        "touching only other domains'"]
